@@ -349,6 +349,15 @@ func lockLocker(h interface {
 	}
 }
 
+// OnceDo: one task at a time gets to the real Do (a second one would block in the
+// Once's own mutex, where the simulator cannot see it, while the first is parked
+// inside f).
+func (s *Sched) OnceDo(o *sync.Once, f func()) {
+	s.acquire(o, false, func() {})
+	defer s.release(o, false, func() {})
+	o.Do(f)
+}
+
 // CondWait: give up the lock, wait to be named by a Signal or Broadcast, take the lock
 // again. The real Cond is never waited on.
 func (s *Sched) CondWait(c *sync.Cond) {
